@@ -137,7 +137,7 @@ def handle (args : List String) : String :=
         | .error e => "err " ++ e.toStr
         | .ok s =>
           let b := toBitsForBytes s
-          s!"ok {bitsToWire (logical s)} {len s} {count1 s} {bitsToWire b} {if eqStore s (ofBits (logical s)) then "True" else "False"}"
+          s!"ok {bitsToWire (logical s)} {C08.len s} {count1 s} {bitsToWire b} {if eqStore s (ofBits (logical s)) then "True" else "False"}"
     | _, _, _ => "bad-op"
   | _ => "bad-op"
 
